@@ -1,4 +1,4 @@
-SPECIFICATION FairSpec
+SPECIFICATION Spec
 CONSTANTS
   NChunks = 2
   QCap = 1
@@ -8,7 +8,6 @@ CONSTANTS
   MaxEvents = 1
   MaxPerTick = 1
   DrainAfterQuit = TRUE
-  AfterCancel = "queued"
-INVARIANTS BoundedAfterCancel DisplayedIsPartOfSent NoticesAlwaysDisplayed
-PROPERTIES EndsAfterQuit
+  AfterCancel = "all"
+INVARIANTS BoundedAfterCancel NoticeShownAtCompletion DisplayedIsPartOfSent
 CHECK_DEADLOCK FALSE
